@@ -7,8 +7,12 @@
     C  height,prevMTP,prevTime,expectedBits(hex),now
     H  version,bits(hex),time,hashNum(hex)
     B  strippedSize,totalSize,merkleOk,dupTxids,commit,cbHeight
-    S  hOk,hFail,inOk   best-chain height the scenario ends with if the candidate is valid / invalid; whether a
-                        valid candidate ends on the active chain (0 for a template check, which stores nothing)
+    S  hOk,hFail,inOk,skipPow,store   best-chain height the scenario ends with if the candidate is valid / invalid;
+                        whether a valid candidate ends on the active chain; the delivery skips the hash-vs-target
+                        comparison; the delivery stores blocks (0 for a template check)
+  answer: accept|reject[:classes] in=<candidate on the active chain> h=<best height> st=<candidate stored (HaveBlock)>
+  C01 api <mode> <recipe> <same facts>   the stand-alone exported checks on the candidate, nothing delivered
+  C01 par <blk|api case> | <case> | …    several cases run concurrently on separate chain instances
     tx version;lockTime;strippedSize;dupInputs;script0Len;legacySigops;hasWitness;overwrites;outs;ins
        outs  v_v_v…  (v*k = k copies), ~ = none
        ins   in/in/…  ~ = none; in = null:seq:avail:isCb:originHeight:originPrevMTP:amount:p2shSigops:witSigops:failsAlways:failsUnder
@@ -73,27 +77,98 @@ def pBlock? (s : String) (txs : List TxFacts) : Option BlockFacts :=
     pure ⟨← ss.toInt?, ← ts.toInt?, txs, ← pBool? mo, ← pBool? dt, ← cm.toNat?, ← ch.toInt?⟩
   | _ => none
 
-def pScen? (s : String) : Option (Int × Int × Nat) :=
+structure Scen where
+  hOk : Int
+  hFail : Int
+  inOk : Nat
+  skipPow : Bool     -- the delivery skips the hash-vs-target comparison (BFNoPoWCheck, template check)
+  store : Bool       -- the delivery stores blocks (false for a template check)
+
+def pScen? (s : String) : Option Scen :=
   match s.splitOn "," with
-  | [a, b, c] => do pure (← a.toInt?, ← b.toInt?, ← c.toNat?)
+  | [a, b, c, d, e] => do pure ⟨← a.toInt?, ← b.toInt?, ← c.toNat?, ← pBool? d, ← pBool? e⟩
   | _ => none
 
-def answer (mode : String) (d : Desc) (hOk hFail : Int) (inOk : Nat) : String :=
-  match validBlock d with
-  | .ok _ => s!"accept in={inOk} h={hOk}"
-  | .error _ =>
-    if mode == "VC" then s!"reject:{String.intercalate "+" (violatedClasses d)} in=0 h={hFail}"
-    else s!"reject in=0 h={hFail}"
+def b01 (b : Bool) : String := if b then "1" else "0"
+
+/-- the rules that apply to the delivery -/
+def viol (sc : Scen) (d : Desc) : List Rule :=
+  (violated d).filter (fun r => !(sc.skipPow && r == .powHash))
+
+def answer (mode : String) (d : Desc) (sc : Scen) : String :=
+  let v := viol sc d
+  let stored := sc.store && (v.filter (fun r => stage r != 2)).isEmpty
+  if v.isEmpty then s!"accept in={sc.inOk} h={sc.hOk} st={b01 stored}"
+  else if mode == "VC" then
+    s!"reject:{String.intercalate "+" (dedup (v.map Rule.cls))} in=0 h={sc.hFail} st={b01 stored}"
+  else s!"reject in=0 h={sc.hFail} st={b01 stored}"
+
+def clsOf (mode : String) (rs : List Rule) : String :=
+  if rs.isEmpty then "ok"
+  else if mode == "VC" then String.intercalate "+" (dedup (rs.map Rule.cls)) else "rej"
+
+def joinC (l : List String) : String := if l.isEmpty then "~" else String.intercalate "," l
+
+/-- the stand-alone exported checks on the candidate (nothing is delivered) -/
+def apiAnswer (mode : String) (d : Desc) : String :=
+  let v := violated d
+  let txs := d.B.txs
+  let sanity := clsOf mode (v.filter (fun r => stage r == 0))
+  let hs := clsOf mode (v.filter (fun r => r == .powTarget || r == .powHash || r == .timeNew))
+  let pow := clsOf mode (v.filter (fun r => r == .powTarget || r == .powHash))
+  let hc := clsOf mode (v.filter (fun r => r == .bits || r == .timeOld || r == .timewarp || r == .version))
+  let tx := joinC (txs.map txSanityClass)
+  let fin := joinC (txs.map (fun t => b01 (t.final d.C.height d.lockCutoff)))
+  let sl := joinC (txs.map (fun t =>
+    if t.ins.any (fun i => !i.null && !i.avail) then "-" else b01 (!d.csv || t.seqLocksOk d.C.height d.C.prevMTP)))
+  let ins := joinC (txs.map (fun t => txInputsResult t d.C.height d.P.maturity))
+  let so := joinC (txs.map (fun t => toString t.legacySigops))
+  let cost := fun (b16 sw : Bool) => joinC (txs.map (fun t => txSigOpCostResult t b16 sw))
+  let cbh := match txs with
+    | t :: _ => if t.ins.isEmpty then "-" else if d.B.cbHeight = d.C.height then "ok" else "bip34"
+    | [] => "-"
+  let wc := match txs with
+    | [] => "notx"
+    | t :: _ => if t.ins.isEmpty then "tx-empty"
+      else if d.B.commit == 2 then "witness"
+      else if d.B.commit == 0 && txs.any (·.hasWitness) then "witness" else "ok"
+  s!"sanity={sanity} hs={hs} pow={pow} hc={hc} tx={tx} fin={fin} sl={sl} in={ins} so={so} " ++
+  s!"c00={cost false false} c01={cost false true} c10={cost true false} c11={cost true true} " ++
+  s!"w={d.weight} cbh={cbh} wc={wc} sub={subsidy d.C.height d.P.subsidyInterval}"
+
+def parseDesc? : List String → Option (Desc × Scen)
+  | p :: c :: h :: b :: s :: txs =>
+    match pParams? p, pCtx? c, pHeader? h, txs.mapM pTx?, pScen? s with
+    | some p, some c, some h, some txs, some sc =>
+      match pBlock? b txs with
+      | some b => some (⟨p, c, h, b⟩, sc)
+      | none => none
+    | _, _, _, _, _ => none
+  | _ => none
+
+/-- split a token list at the separator token "|" -/
+def splitBar : List String → List (List String)
+  | [] => [[]]
+  | t :: rest =>
+    match splitBar rest with
+    | [] => [[t]]
+    | g :: gs => if t == "|" then [] :: g :: gs else (t :: g) :: gs
+
+def handleOne : List String → String
+  | "blk" :: mode :: _recipe :: rest =>
+    if mode != "VC" && mode != "V" then "bad-op" else
+    match parseDesc? rest with
+    | some (d, sc) => answer mode d sc
+    | none => "bad-op"
+  | "api" :: mode :: _recipe :: rest =>
+    if mode != "VC" && mode != "V" then "bad-op" else
+    match parseDesc? rest with
+    | some (d, _) => apiAnswer mode d
+    | none => "bad-op"
+  | _ => "bad-op"
 
 def handle : List String → String
-  | "blk" :: mode :: _recipe :: p :: c :: h :: b :: s :: txs =>
-    if mode != "VC" && mode != "V" then "bad-op" else
-    match pParams? p, pCtx? c, pHeader? h, txs.mapM pTx?, pScen? s with
-    | some p, some c, some h, some txs, some (hOk, hFail, inOk) =>
-      match pBlock? b txs with
-      | some b => answer mode ⟨p, c, h, b⟩ hOk hFail inOk
-      | none => "bad-op"
-    | _, _, _, _, _ => "bad-op"
-  | _ => "bad-op"
+  | "par" :: rest => String.intercalate " | " ((splitBar rest).map handleOne)
+  | l => handleOne l
 
 end BV.C01.Driver
